@@ -172,11 +172,20 @@ def nqV (l r : Value) : Value :=
 
 /-! ## ordering (`build_lt`, `build_le`, `build_gt`, `build_ge`) -/
 
+def optBool (o : Option Bool) : Value :=
+  match o with
+  | some b => .bool b
+  | none => .null
+
 def ltV (l r : Value) : Value :=
   match l, r with
   | .num a, .num b => .bool (Dec.cmp a b == .lt)
   | .str a, .str b => .bool (compare a b == .lt)
   | .date y1 m1 d1, .date y2 m2 d2 => .bool (datePartialCmp y1 m1 d1 y2 m2 d2 == some .lt)
+  | .time a, .time b => optBool ((instantCompare? a b).map (fun o => o == .lt))
+  | .dateTime a, .dateTime b => optBool ((instantCompare? a b).map (fun o => o == .lt))
+  | .dtDur a, .dtDur b => .bool (decide (a < b))
+  | .ymDur a, .ymDur b => .bool (decide (a < b))
   | _, _ => .null
 
 def leV (l r : Value) : Value :=
@@ -185,6 +194,10 @@ def leV (l r : Value) : Value :=
   | .str a, .str b => .bool (compare a b != .gt)
   | .date y1 m1 d1, .date y2 m2 d2 =>
     .bool (datePartialCmp y1 m1 d1 y2 m2 d2 == some .lt || datePartialCmp y1 m1 d1 y2 m2 d2 == some .eq)
+  | .time a, .time b => optBool ((instantCompare? a b).map (fun o => o != .gt))
+  | .dateTime a, .dateTime b => optBool ((instantCompare? a b).map (fun o => o != .gt))
+  | .dtDur a, .dtDur b => .bool (decide (a ≤ b))
+  | .ymDur a, .ymDur b => .bool (decide (a ≤ b))
   | _, _ => .null
 
 def gtV (l r : Value) : Value :=
@@ -192,6 +205,10 @@ def gtV (l r : Value) : Value :=
   | .num a, .num b => .bool (Dec.cmp a b == .gt)
   | .str a, .str b => .bool (compare a b == .gt)
   | .date y1 m1 d1, .date y2 m2 d2 => .bool (datePartialCmp y1 m1 d1 y2 m2 d2 == some .gt)
+  | .time a, .time b => optBool ((instantCompare? a b).map (fun o => o == .gt))
+  | .dateTime a, .dateTime b => optBool ((instantCompare? a b).map (fun o => o == .gt))
+  | .dtDur a, .dtDur b => .bool (decide (a > b))
+  | .ymDur a, .ymDur b => .bool (decide (a > b))
   | _, _ => .null
 
 def geV (l r : Value) : Value :=
@@ -200,14 +217,13 @@ def geV (l r : Value) : Value :=
   | .str a, .str b => .bool (compare a b != .lt)
   | .date y1 m1 d1, .date y2 m2 d2 =>
     .bool (datePartialCmp y1 m1 d1 y2 m2 d2 == some .gt || datePartialCmp y1 m1 d1 y2 m2 d2 == some .eq)
+  | .time a, .time b => optBool ((instantCompare? a b).map (fun o => o != .lt))
+  | .dateTime a, .dateTime b => optBool ((instantCompare? a b).map (fun o => o != .lt))
+  | .dtDur a, .dtDur b => .bool (decide (a ≥ b))
+  | .ymDur a, .ymDur b => .bool (decide (a ≥ b))
   | _, _ => .null
 
 /-! ## `between` (`build_between`) and `in` a range (`eval_in_range`) -/
-
-def optBool (o : Option Bool) : Value :=
-  match o with
-  | some b => .bool b
-  | none => .null
 
 /-- `x between a and b`: `l` is x, `m` is a, `r` is b. -/
 def betweenV (l m r : Value) : Value :=
